@@ -674,6 +674,53 @@ SCENARIOS = {
 }
 
 
+def sc_cherry_pick_anticipated(cx):
+    """The target branch has ALREADY dropped the head of the file; the LAST picked commit drops it too (git merges the
+    identical deletion cleanly), the earlier picked commits append AI lines at the end: the last (original, new) pair is
+    blob-identical on the AI-touched file, the earlier pairs are not — their AI lines sit `k` lines higher than the
+    originals' notes say, past the end of the rewritten file if a note were copied verbatim. One or two earlier commits,
+    1–4 dropped lines, one multi-commit `cherry-pick` or the rebase of the same series.
+    (independently written regression C05-seed3: the fast path compared the last pair only)"""
+    nm = cx.names(1)[0]
+    r = base_repo(cx, [nm], lines=10)
+    k = cx.rng.randint(1, 4)
+    early = cx.rng.randint(1, 2)
+    use_rebase = cx.rng.random() < 0.4
+    r.git("checkout", "-q", "-b", "feature")
+    fshas = []
+    for j in range(early):
+        cur = cx.read_lines(r, nm)
+        cur += cx.lines("ai-s1", cx.rng.randint(1, 3))
+        cx.write_lines(r, nm, cur)
+        r.ai_checkpoint("s1" if j == 0 else "s2", [nm])
+        cx.op(f"ai append {nm!r}")
+        fshas.append(cx.commit(r, f"f{j}"))
+    cur = cx.read_lines(r, nm)[k:]
+    cx.write_lines(r, nm, cur)
+    r.human_checkpoint([nm])
+    cur += cx.lines("ai-s3", 1)
+    cx.write_lines(r, nm, cur)
+    r.ai_checkpoint("s3", [nm])
+    cx.op(f"person drops the first {k} lines, ai append {nm!r}")
+    fshas.append(cx.commit(r, "f-last"))
+    r.git("checkout", "-q", "main")
+    cx.write_lines(r, nm, cx.read_lines(r, nm)[k:])
+    cx.commit(r, f"main drops the first {k} lines too")
+    cx.tags.append(f"anticipated:{'rebase' if use_rebase else 'cherry-pick'}:early={early}:k={k}")
+    if use_rebase:
+        r.git("checkout", "-q", "feature")
+        traced_batch(cx, r, lambda tenv: cx.git(r, "rebase", "main", env=tenv))
+        rc, out, _ = r.plain_git("log", "--format=%H", "main..HEAD")
+    else:
+        picks = [s_ for s_ in fshas if s_]
+        traced_batch(cx, r, lambda tenv: cx.git(r, "cherry-pick", *picks, env=tenv))
+        rc, out, _ = r.plain_git("log", "--format=%H", f"HEAD~{len(picks)}..HEAD")
+    cx.lean_wf(r, out.split())
+
+
+SCENARIOS["cherry-pick-anticipated"] = sc_cherry_pick_anticipated
+
+
 def run_scenario(name, seed):
     out = {"name": name, "seed": seed, "fails": [], "tags": [], "stats": {}, "wfreqs": [], "batchreqs": [], "squashreqs": [], "error": None, "ops": 0, "ncmd": 0}
     fn = SCENARIOS.get(name.split("#")[0])
@@ -702,7 +749,7 @@ def plan(tier, seed):
     reps = 2 if tier == "quick" else 20
     jobs = []
     for name in SCENARIOS:
-        k = 1 if name in ("newline-name", "large-600") else 24 * (1 if tier == "quick" else 5) if name == "outside-writer" else (max(reps, 4) if name in ("delete-rename", "squash-authorship") else (max(reps, 3) if name == "delete-recreate-in-range" else reps))
+        k = 1 if name in ("newline-name", "large-600") else 24 * (1 if tier == "quick" else 5) if name == "outside-writer" else (max(reps, 4) if name in ("delete-rename", "squash-authorship") else (max(reps, 3) if name in ("delete-recreate-in-range", "cherry-pick-anticipated") else reps))
         for i in range(k):
             jobs.append((f"{name}#{i}", seed * 1000 + i))
     if tier == "thorough":
